@@ -99,9 +99,19 @@ type FatGen struct {
 	NoGap    bool
 	NoAlias  bool
 	NoNonASCII bool
+	// ext4 flavour
+	Ext4     bool // no case-varied lookups, no truncating open, rename only as a refusal, symlinks and attributes
+	Sizes    []int
 }
 
 func (g *FatGen) sizeClass() int {
+	if len(g.Sizes) > 0 {
+		n := gen.Pick(g.R, g.Sizes)
+		if g.MaxFile > 0 && n > g.MaxFile {
+			n = g.MaxFile
+		}
+		return n
+	}
 	cs := g.Cluster
 	c := []int{0, 1, 7, 511, 512, 513, cs - 1, cs, cs + 1, 2 * cs, 2*cs + 1, 3*cs + 5, 10 * cs, 37*cs + 11}
 	n := gen.Pick(g.R, c)
@@ -199,7 +209,7 @@ func (g *FatGen) Next(d *fsdrive.Driver) fsdrive.Op {
 	}
 	lookupSpelling := func(p string) string {
 		// case-varied spelling of the last element (FAT lookups are case-insensitive)
-		if r.Chance(0.25) {
+		if !g.Ext4 && r.Chance(0.25) {
 			i := strings.LastIndex(p, "/")
 			return p[:i+1] + variedCase(r, p[i+1:])
 		}
@@ -262,6 +272,56 @@ func (g *FatGen) Next(d *fsdrive.Driver) fsdrive.Op {
 			}
 			return fsdrive.Op{Kind: "append", Path: lookupSpelling(p), Len: g.sizeClass(), DSeed: r.Uint64()}
 		case w < 58:
+			if g.Ext4 {
+				// symlinks and attribute changes take the place of the truncating open
+				all := m.Paths()
+				switch r.Intn(4) {
+				case 0:
+					dir := pickDir()
+					p := joinP(dir, fmt.Sprintf("link%d", r.Intn(1000)))
+					if m.Lookup(p) != nil {
+						continue
+					}
+					tl := gen.Pick(r, []int{1, 5, 59, 60, 61, 100, 255, 1000, 4095})
+					tgt := make([]byte, tl)
+					for i := range tgt {
+						tgt[i] = "abcdefghij/klmnopqrstuvwxyz.."[(i*7+tl)%29]
+					}
+					if tgt[0] == '/' && r.Chance(0.5) {
+						tgt[0] = 'r'
+					}
+					return fsdrive.Op{Kind: "symlink", Path: p, Path2: string(tgt)}
+				case 1:
+					if len(all) == 0 {
+						continue
+					}
+					p := gen.Pick(r, all)
+					if n := m.Lookup(p); n == nil || n.IsLink {
+						continue
+					}
+					return fsdrive.Op{Kind: "chmod", Path: p, Mode: uint32(r.Intn(0o10000))}
+				case 2:
+					if len(all) == 0 {
+						continue
+					}
+					p := gen.Pick(r, all)
+					if n := m.Lookup(p); n == nil || n.IsLink {
+						continue
+					}
+					ids := []int{0, 1, 1000, 65535, 65536, 1 << 31, (1 << 32) - 1}
+					return fsdrive.Op{Kind: "chown", Path: p, UID: gen.Pick(r, ids), GID: gen.Pick(r, ids)}
+				default:
+					if len(all) == 0 {
+						continue
+					}
+					p := gen.Pick(r, all)
+					if n := m.Lookup(p); n == nil || n.IsLink {
+						continue
+					}
+					ts := []int64{0, 1, 86400 * 365 * 10, 946684800, 2147483647, 2147483648, 4102444800, 1700000000}
+					return fsdrive.Op{Kind: "chtimes", Path: p, T: [3]int64{gen.Pick(r, ts), gen.Pick(r, ts), gen.Pick(r, ts)}}
+				}
+			}
 			p := existing()
 			if p == "" {
 				continue
@@ -270,6 +330,9 @@ func (g *FatGen) Next(d *fsdrive.Driver) fsdrive.Op {
 		case w < 68:
 			p := existing()
 			if p == "" {
+				continue
+			}
+			if g.Ext4 && !r.Chance(0.15) {
 				continue
 			}
 			dir := ""
@@ -301,6 +364,17 @@ func (g *FatGen) Next(d *fsdrive.Driver) fsdrive.Op {
 				}
 			}
 			p := existing()
+			if g.Ext4 && r.Chance(0.2) {
+				var links []string
+				for _, q := range m.Paths() {
+					if n := m.Lookup(q); n != nil && n.IsLink {
+						links = append(links, q)
+					}
+				}
+				if len(links) > 0 {
+					p = gen.Pick(r, links)
+				}
+			}
 			if p == "" {
 				continue
 			}
